@@ -77,8 +77,7 @@ def main(argv=None):
 
 
 def build_all():
-    from . import translate_run
-    translate_run.regenerate()
+    # the translators (Tie A) are run by every check against the current source; nothing is generated at build time
     ok, log, dt = core.lake_build(['Model', 'Generated', 'Proofs', 'Props', 'cliffdrv'])
     print(log[-3000:])
     print(f"build {'ok' if ok else 'FAILED'} in {dt:.0f}s")
